@@ -1,4 +1,35 @@
-(* placeholder until the proofs are integrated *)
-From LLTD Require Import BufProofs.
-Theorem C17_placeholder : True. Proof. exact I. Qed.
-Print Assumptions C17_placeholder.
+(* C17: interfaces are isolated (sequential: proved; concurrent registration: refuted = known finding).
+   Statements only: each theorem restates the full type of a lemma proved in coq/proofs and is closed by
+   `exact`; Print Assumptions beneath.  Regenerate with bin/genprops.py after a lemma changes. *)
+From LLTD Require Import BlockFun Isolation RegistryProofs.
+
+Theorem C17_interleaving_isolated :
+  forall (cfgs : N -> pcfg) (g : gcfg) (mtus : N -> N) (l : list (N * list N)) (m : smap) (ctx : N),
+  acts_of ctx (snd (sys_run cfgs g mtus m l)) =
+  snd (f_run ctx (cfgs ctx) g (mtus ctx) (m ctx) (frames_of ctx l)) /\
+  fst (sys_run cfgs g mtus m l) ctx = fst (f_run ctx (cfgs ctx) g (mtus ctx) (m ctx) (frames_of ctx l)).
+Proof. exact isolation. Qed.
+Print Assumptions C17_interleaving_isolated.
+
+Theorem C17_registry_isolated :
+  forall (r : registry) (c1 c2 : N) (s : ist), c1 <> c2 -> reg_find (reg_set r c1 s) c2 = reg_find r c2.
+Proof. exact reg_isolation. Qed.
+Print Assumptions C17_registry_isolated.
+
+Theorem C17_registry_sequential_ok :
+  let s := Registry.rrun (Registry.rstate0 1 2) [false; false; false; false; true; true; true; true] in
+  Registry.both_done s = true /\ Registry.registered s 1 = true /\ Registry.registered s 2 = true.
+Proof. exact registry_sequential_ok. Qed.
+Print Assumptions C17_registry_sequential_ok.
+
+Theorem C17_registry_lost_update :
+  exists sched : list bool,
+  let s := Registry.rrun (Registry.rstate0 1 2) sched in
+  Registry.both_done s = true /\ (Registry.registered s 1 = false \/ Registry.registered s 2 = false).
+Proof. exact C17_registry_refuted. Qed.
+Print Assumptions C17_registry_lost_update.
+
+Theorem C17_registry_losing_interleavings :
+  length (interleavings 4 4) = 70 /\ length (filter loses (interleavings 4 4)) = 40.
+Proof. exact registry_all_interleavings. Qed.
+Print Assumptions C17_registry_losing_interleavings.
